@@ -35,7 +35,7 @@ func (SumtreeEngine) Describe() simcore.Description {
 	return simcore.Description{
 		Real: []string{"osmoutils/sumtree (Tree, ptr, Node: Set/Increase/Decrease/Remove/Clear, Get, PrefixSum, SubsetAccumulation, SplitAcc, TotalAccumulatedValue, Iterator, ReverseIterator)", "cosmossdk.io/store cachekv + dbadapter over cosmos-db MemDB"},
 		Stub: []string{"IAVL / gas-metered store: replaced by a counting store that aborts an operation at a seeded store access"},
-		Rule: "one run = one tree (fan-out drawn per run) driven by a seeded sequence of set/increase/decrease/remove/clear over an adversarial key alphabet (every 16th run instead a wide-node configuration: fan-out 64..255 with bulk inserts/removals of up to 700 dense keys so that nodes of the largest capacity fill, split and merge), each in its own store transaction, with seeded aborts (panic at the k-th store access, or roll-back after success); after every step all queries over the whole alphabet and the tree's stored structure are compared with a sorted map.",
+		Rule: "one run = one tree (fan-out drawn per run) driven by a seeded sequence of set/increase/decrease/remove/clear over an adversarial key alphabet (every 16th run instead a wide-node configuration: fan-out 64..255 with bulk inserts/removals of up to 700 dense keys so that nodes of the largest capacity fill, split and merge), each in its own store transaction, with seeded aborts (panic at the k-th store access, or roll-back after success); after every step all queries over the whole alphabet and the tree's stored structure are compared with a sorted map. A fifth of the runs use only a prefix-closed key family (every string over two letters of length 1-4) with removal sweeps that start in the middle of the key order; 12% are a structure-aware merge scenario: ascending inserts (node boundaries follow from the split rule), then one first-level node whose key is a prefix of its right neighbour's key is emptied largest-child-first after its neighbours have been thinned.",
 		Assumptions: []string{
 			"the tree is obtained through NewTree, whose documented behaviour is to create the empty-key leaf with value 0 when it is missing; the reference map does the same",
 			"subset sums are only queried for start <= end",
